@@ -63,7 +63,10 @@ impl MaybeDynSized for ConsoleHeaderTag {
 
     const BASE_SIZE: usize = mem::size_of::<HeaderTagHeader>() + mem::size_of::<u32>();
 
-    fn dst_len(_header: &Self::Header) -> Self::Metadata {}
+    fn dst_len(header: &Self::Header) -> Self::Metadata {
+        // The enum-typed flags field must be part of the tag.
+        assert!(header.size() as usize >= Self::BASE_SIZE);
+    }
 }
 
 impl Tag for ConsoleHeaderTag {
